@@ -116,10 +116,12 @@ mutual
 /-- **statement level** -/
 theorem compileStmtH_eq (env : CEnv) :
     (s : CStmt) → (st : HSt) → HybFreeS s = true → HSameS env s = true → LiveOK st → PendOK st →
-      compileStmtH env st s = (compileStmt env (toT st) s).map (fun r => (some r.1, [], fromT st r.2))
+      compileStmtH env st s = (compileStmt env (toT st) s).map (fun r => (effOpt s r.1, [], fromT st r.2))
   | .decl t n none, st, _, _, hl, _ => by
+      show _ = (compileStmt env (toT st) _).map (fun r => (some r.1, [], fromT st r.2))
       simp only [compileStmtH, compileStmt, map_ok, fromT_toT st hl]
   | .decl t n (some e), st, hf, hs, hl, hp => by
+      show _ = (compileStmt env (toT st) _).map (fun r => (some r.1, [], fromT st r.2))
       simp only [HybFreeS, Bool.and_eq_true, Bool.not_eq_eq_eq_not, Bool.not_true] at hf
       simp only [HSameS] at hs
       simp only [compileStmtH, compileStmt]
@@ -133,6 +135,7 @@ theorem compileStmtH_eq (env : CEnv) :
         · simp only [tmpsOfEffect, hf.1, Bool.false_eq_true, ↓reduceIte, List.nil_append]
           exact nt_conv _ _ _ (nt_compileExpr env e hf.2 hce)
   | .assign lhs op e, st, hf, hs, hl, hp => by
+      show _ = (compileStmt env (toT st) _).map (fun r => (some r.1, [], fromT st r.2))
       simp only [HybFreeS, Bool.and_eq_true] at hf
       simp only [HSameS] at hs
       simp only [compileStmtH, compileStmt]
@@ -150,6 +153,7 @@ theorem compileStmtH_eq (env : CEnv) :
           simp only [map_ok, chk_nt _ _ _ hnt.1, himm, stAdd_stAdd]
           rfl
   | .chain l1 l2 op2 e, st, hf, hs, hl, hp => by
+      show _ = (compileStmt env (toT st) _).map (fun r => (some r.1, [], fromT st r.2))
       simp only [HybFreeS, Bool.and_eq_true] at hf
       simp only [HSameS] at hs
       simp only [compileStmtH, compileStmt]
@@ -181,6 +185,7 @@ theorem compileStmtH_eq (env : CEnv) :
             simp only [map_ok, chk_nt _ _ _ hO.1, chk_nt _ _ _ hseq, himm1, himm2, stAdd_stAdd]
             rfl
   | .store w e, st, hf, hs, hl, hp => by
+      show _ = (compileStmt env (toT st) _).map (fun r => (some r.1, [], fromT st r.2))
       simp only [HybFreeS] at hf
       simp only [HSameS] at hs
       simp only [compileStmtH, compileStmt]
@@ -194,6 +199,7 @@ theorem compileStmtH_eq (env : CEnv) :
         · simp only [tmpsOfEffect, tmpsOfPure, isHTmp_EA, Bool.false_eq_true, ↓reduceIte, List.nil_append]
           exact nt_storeData env.cfg w ce (nt_compileExpr env e hf hce)
   | .jump e, st, hf, hs, hl, hp => by
+      show _ = (compileStmt env (toT st) _).map (fun r => (some r.1, [], fromT st r.2))
       simp only [HybFreeS] at hf
       simp only [HSameS] at hs
       simp only [compileStmtH, compileStmt]
@@ -211,13 +217,26 @@ theorem compileStmtH_eq (env : CEnv) :
         · simp only [tmpsOfEffect, tmpsOfEffects_cons, tmpsOfEffects_nil, tmpsOfPure, isHTmp_jump_flag,
             isHTmp_jump_target, this, Bool.false_eq_true, ↓reduceIte, List.nil_append, List.append_nil]
   | .skip w, st, _, _, hl, _ => by
+      show _ = (compileStmt env (toT st) _).map (fun r => (some r.1, [], fromT st r.2))
       simp only [compileStmtH, compileStmt]
       split
       · simp only [map_ok, fromT_toT st hl]
       · split <;> simp only [map_ok, fromT_toT st hl]
-  | .exprstmt _, st, hf, _, _, _ => by simp [HybFreeS] at hf
+  | .exprstmt e, st, hf, hs, hl, hp => by
+      show _ = (compileStmt env (toT st) _).map (fun r => (none, [], fromT st r.2))
+      simp only [HybFreeS] at hf
+      simp only [HSameS] at hs
+      simp only [compileStmtH, compileStmt]
+      rw [compileExprH_eq env e st hf hs hl hp.noGcc]
+      cases hce : compileExpr env e with
+      | error m => rfl
+      | ok ce =>
+        simp only [map_ok, bind, Except.bind]
+        rw [nt_compileExpr env e hf hce]
+        rfl
   | .ret _, st, hf, _, _, _ => by simp [HybFreeS] at hf
   | .ite c t none, st, hf, hs, hl, hp => by
+      show _ = (compileStmt env (toT st) _).map (fun r => (some r.1, [], fromT st r.2))
       simp only [HybFreeS, Bool.and_eq_true, and_true] at hf
       simp only [HSameS, Bool.and_eq_true, and_true] at hs
       simp only [compileStmtH, compileStmt]
@@ -241,6 +260,7 @@ theorem compileStmtH_eq (env : CEnv) :
           simp only [map_ok, chk_id _ _ _ hpb h1, chk_id _ _ _ hpb h2]
           rfl
   | .for_ v c step b, st, hf, hs, hl, hp => by
+      show _ = (compileStmt env (toT st) _).map (fun r => (some r.1, [], fromT st r.2))
       simp only [HybFreeS, Bool.and_eq_true, Bool.not_eq_eq_eq_not, Bool.not_true, beq_iff_eq] at hf
       obtain ⟨⟨⟨hv, hfc⟩, hfb⟩, hlt⟩ := hf
       simp only [HSameS, Bool.and_eq_true] at hs
@@ -325,6 +345,7 @@ theorem compileStmtH_eq (env : CEnv) :
               simp only [map_ok, chk_id _ _ _ hpb h1, chk_id _ _ _ hpb h2]
               rfl
   | .ite c t (some el), st, hf, hs, hl, hp => by
+      show _ = (compileStmt env (toT st) _).map (fun r => (some r.1, [], fromT st r.2))
       simp only [HybFreeS, Bool.and_eq_true] at hf
       simp only [HSameS, Bool.and_eq_true] at hs
       simp only [compileStmtH, compileStmt]
@@ -381,7 +402,11 @@ theorem compileStmtsH_eq (env : CEnv) :
         rw [compileStmtsH_eq env ss _ hf.2 hs.2 (LiveOK_fromT _ _) (PendOK_fromT hp hm)]
         cases h2 : compileStmts env (toT (fromT st t1)) ss with
         | error m => rw [show toT (fromT st t1) = t1 from rfl] at h2; rw [h2]; rfl
-        | ok r2 => rw [show toT (fromT st t1) = t1 from rfl] at h2; rw [h2]; rfl
+        | ok r2 =>
+          rw [show toT (fromT st t1) = t1 from rfl] at h2; rw [h2]
+          cases hb : isBare s
+          · simp only [effOpt, consEff, hb, Bool.false_eq_true, ↓reduceIte]; rfl
+          · simp only [effOpt, consEff, hb, ↓reduceIte]; rfl
 end
 
 end HEqv
